@@ -39,7 +39,7 @@ type StmtSite struct {
 // Vocab is the vocabulary extracted from the repository: who plays which role.
 type Vocab struct {
 	covered map[*ssa.Function]bool // functions whose statements belong to a storage interface method
-	P *Program
+	P       *Program
 
 	Routes     []*Route
 	ServerType types.Type // receiver type of the handlers
